@@ -40,6 +40,15 @@ CLAIMED = {
         note=TB + "Modelled: Valve.update/reset (Dev/Valve.v); time.monotonic replaced by a scripted integer clock.",
         technique="Coq proof by case analysis over all states + differential correspondence",
         ref="7/C27"),
+    "C14": dict(
+        text="Theorem C14_order: for every target, every valid non-BOOTSTRAP first status word and EVERY further stream of AL-status words (unbounded polls, "
+             "errors anywhere) the trace of Terminal.to_operational acknowledges an initial error first, requests a prefix of the states above the start up "
+             "to the target in order, requests a state only after the previous one was reported without error, returns only after the target was reported, "
+             "raises only on a reported error; proved by induction over the reply stream. MachineState values/order regenerated from source; model tied to the "
+             "code by scripted-terminal runs (structured behaviours + unstructured streams).",
+        note=TB + "Modelled: to_operational/get_state (Ecat/StateMachine.v); ec.roundtrip replaced by a scripted terminal.",
+        technique="Coq proof by induction over reply streams + differential correspondence",
+        ref="7/C14"),
 }
 
 REASONS_NOT_YET = "no check built yet in this round (planned, see DESIGN.md section 7); nothing is claimed for it"
